@@ -236,6 +236,21 @@ C05_Deadline ==
            /\ since + Bound(p[2]) < last[k].t + 2 * Opt(p[2]).ri
            /\ ~(cancd.lastReload >= ver[a].end /\ GcTickIn(ver[a].end, cancd.lastReload)) )
 
+\* C04: repeats arrive on time - an unchanged firing group is re-notified no later than
+\* repeat_interval plus one group_interval (plus what a flush may overrun, scheduling slack,
+\* the cluster wait, and the pause of a reload) after the previous notification, as long as
+\* every alert it listed has stayed deliverable to that integration all the time
+ReloadPause == 6 * SchedSlack
+C04_Deadline ==
+  \A k \in DOMAIN last :
+     LET gk == k[1]
+         i == k[2]
+         since == last[k].t
+     IN ~( /\ gk \in AllGK /\ i \in IntegsOf(gk) /\ last[k].firing # {}
+           /\ \A a \in last[k].firing : <<a, gk, i>> \in DOMAIN elig /\ elig[<<a, gk, i>>] >= 0 /\ elig[<<a, gk, i>>] <= since
+           /\ now - since > Opt(gk).ri + Opt(gk).gi + (Timeout(gk) - Opt(gk).gi) + SchedSlack + cfg.maxwait
+                             + (IF cancd.lastReload >= since THEN ReloadPause ELSE 0) )
+
 (* --- environment events ------------------------------------------------ *)
 Cfg(c) ==
   /\ cfg' = Derive(c) /\ now' = 0 /\ ver' = << >> /\ sil' = << >> /\ last' = << >> /\ brk' = << >> /\ fl' = << >> /\ cancd' = [seen |-> {}, dead |-> << >>, deadgk |-> {}, refl |-> {}, ing |-> << >>, mby |-> << >>, lastReload |-> 0 - 1]
